@@ -327,13 +327,18 @@ Definition candidate (live cfg : list key) (d : disk) (now : Z) (fl : faults) : 
   | None => []
   end.
 
-(* NewResolver (repaired): rootKeys := cfg.RootKeys without REVOKE-flagged keys and without keys whose
-   material is tombstoned on disk; an existing but unreadable tombstone file gives an empty set.
-   configuredRootKeys keeps the whole list. *)
-Definition restart_live (cfg : list key) (d : disk) (tr : tread) : list key :=
+(* NewResolver (repaired, 1f61a03 + 4ce6577): rootKeys := cfg.RootKeys without REVOKE-flagged keys and
+   without keys whose material is tombstoned on disk OR held as a StateRevoked/Removed marker in the
+   state file; a tombstone or state file that exists but cannot be read gives an empty set.
+   configuredRootKeys keeps the whole list.  [tr] / [sr]: how the two files read at start-up. *)
+Definition restart_live (cfg : list key) (d : disk) (tr : tread) (sr : bool) : list key :=
   match tr with
-  | TROk => let tombs := match d_tomb d with Some t => t | None => [] end in
-            filter (fun k => negb (is_rev k) && negb (mem (k_mat k) tombs)) cfg
+  | TROk =>
+      if sr then [] else
+      let tombs0 := match d_tomb d with Some t => t | None => [] end in
+      let st := match d_state d with Some s => s | None => [] end in
+      let tombs := migrate st tombs0 in
+      filter (fun k => negb (is_rev k) && negb (mem (k_mat k) tombs)) cfg
   | _ => []
   end.
 
@@ -343,9 +348,9 @@ Record sys := mk_sys { s_live : list key; s_cfg : list key; s_disk : disk }.
 Inductive event :=
 | ERun (now : Z) (fe : fetch) (fl : faults)
     (* the process dies after [k] of the run's successful renames; restart with config [cfg'] *)
-| ECrash (now : Z) (fe : fetch) (fl : faults) (k : nat) (cfg' : list key) (tr : tread)
-    (* NewResolver with configuration cfg'; tr = how the tombstone file reads at start-up *)
-| ERestart (cfg' : list key) (tr : tread).
+| ECrash (now : Z) (fe : fetch) (fl : faults) (k : nat) (cfg' : list key) (tr : tread) (sr : bool)
+    (* NewResolver with configuration cfg'; tr / sr = how the tombstone / state file read at start-up *)
+| ERestart (cfg' : list key) (tr : tread) (sr : bool).
 
 Definition run_of (s : sys) (now : Z) (fe : fetch) (fl : faults) : result :=
   autota (s_live s) (s_cfg s) (s_disk s) now fe fl.
@@ -353,11 +358,11 @@ Definition run_of (s : sys) (now : Z) (fe : fetch) (fl : faults) : result :=
 Definition step (s : sys) (e : event) : sys :=
   match e with
   | ERun now fe fl => let r := run_of s now fe fl in mk_sys (r_live r) (s_cfg s) (r_disk r)
-  | ECrash now fe fl k cfg' tr =>
+  | ECrash now fe fl k cfg' tr sr =>
       let r := run_of s now fe fl in
       let d' := apply_writes (s_disk s) (firstn k (r_writes r)) in
-      mk_sys (restart_live cfg' d' tr) cfg' d'
-  | ERestart cfg' tr => mk_sys (restart_live cfg' (s_disk s) tr) cfg' (s_disk s)
+      mk_sys (restart_live cfg' d' tr sr) cfg' d'
+  | ERestart cfg' tr sr => mk_sys (restart_live cfg' (s_disk s) tr sr) cfg' (s_disk s)
   end.
 Definition exec (s : sys) (h : list event) : sys := fold_left step h s.
 
